@@ -64,9 +64,12 @@ def _eqpt_variants():
     pen_b = [{'chromatic_dispersion': 100, 'penalty_value': 0}, {'chromatic_dispersion': 2000, 'penalty_value': 0.3},
              {'pmd': 1, 'penalty_value': 0.1}, {'pmd': 300, 'penalty_value': 0.7}]     # CD leaves the range quickly -> inf
     pen_c = [{'pdl': 0.2, 'penalty_value': 0.25}, {'pdl': 6, 'penalty_value': 1.75}]
+    pen_d = [{'chromatic_dispersion': 0, 'penalty_value': 0}, {'chromatic_dispersion': 40e3, 'penalty_value': 40},
+             {'pmd': 0, 'penalty_value': 0}, {'pmd': 100, 'penalty_value': 10}]   # steep: differs from channel to channel
     specs = [
         dict(margin=2, pens={}, shift=0),
-        dict(margin=1.37, pens={('Voyager', 'mode 1'): pen_a, ('Voyager', 'mode 3'): pen_c}, shift=0),
+        dict(margin=1.37, pens={('Voyager', 'mode 1'): pen_d, ('Voyager', 'mode 3'): pen_c,
+                                ('vendorA_trx-type1', 'mode 1'): pen_d}, shift=0),
         dict(margin=0, pens={('Voyager', 'mode 1'): pen_b, ('vendorA_trx-type1', 'mode 1'): pen_a}, shift=3),
         dict(margin=2.5, pens={('Voyager', 'mode 4'): pen_a, ('Voyager', 'mode 2'): pen_a}, shift=6),
         dict(margin=0.5, pens={('Voyager', 'mode 1'): pen_c, ('Voyager', 'mode 3'): pen_b,
@@ -397,7 +400,7 @@ def direct_variants(rng, drv):
         base_o = drv['obs'][i]
         rq = copy.copy(rqs[i])
         kind = rng.choice(['reason', 'reason', 'reason', 'served', 'bad_labels_blocked', 'bad_nolabels_served',
-                           'bidir_norev', 'flip_bidir'])
+                           'bidir_norev', 'flip_bidir', 'rand_penalties', 'rand_penalties'])
         pth, rpth = fwd_paths[i], rev_paths[i]
         if hasattr(rq, 'blocking_reason'):
             del rq.blocking_reason
@@ -422,8 +425,37 @@ def direct_variants(rng, drv):
             rpth = []
         elif kind == 'flip_bidir':
             rq.bidir = not rq.bidir
+        elif kind == 'rand_penalties':
+            # same outcome as planning, but the receivers hold random per-channel penalties (some infinite)
+            import numpy as np
+            if base_o['block'] is not None:
+                rq.blocking_reason = base_o['block']
+                rq.N = rq.M = None
+            else:
+                rq.N, rq.M = base_o['N'], base_o['M']
+
+            def rand_rx(el):
+                el = copy.copy(el)
+                n = len(el.snr)
+                pens = {}
+                for name in ('pdl', 'chromatic_dispersion', 'pmd'):
+                    x = rng.random()
+                    if x < 0.25:
+                        continue
+                    a = [round(rng.uniform(0, 3), rng.choice([1, 2, 3, 6])) for _ in range(n)]
+                    if x < 0.4:
+                        a[rng.randrange(n)] = float('inf')
+                    elif x < 0.5:
+                        a = [a[0]] * n
+                    pens[name] = np.array(a)
+                el.penalties = pens
+                return el
+            pth = pth[:-1] + [rand_rx(pth[-1])]
+            if rpth:
+                rpth = rpth[:-1] + [rand_rx(rpth[-1])]
         o = dict(base_o)
         o.update(id=rq.request_id, block=getattr(rq, 'blocking_reason', None), bidir=rq.bidir, N=rq.N, M=rq.M,
+                 fwd=figures(pth[-1]) if pth and getattr(pth[-1], 'snr', None) is not None else None,
                  rev=figures(rpth[-1]) if rpth and getattr(rpth[-1], 'snr', None) is not None else None, kind=kind)
         resp = exc = row = None
         try:
